@@ -3,6 +3,7 @@ import json
 import os
 
 from vlib import Check, ToolError, log, read_lines, seed, tlc, validate_all, zv
+import vlib
 from conn_checks import _model, run_family
 
 ST = ("ServerTrace", "ServerTrace.cfg")
@@ -119,6 +120,14 @@ def c18(tier):
                        "accepted; calls are injected as whole frames in these scenarios"]
     _model(chk, "MCServer", "MCServer_c18.cfg", "fairness-3conns", coverage=True)
     _model(chk, "MCServer", "MCServer_c18_mutant.cfg", "mutant-start-eq-last", expect_violation=True)
+    # the round robin on its own, readiness and changes of the connection vector unconstrained: 4 (5) connections
+    _model(chk, "RoundRobinSet", "RoundRobinSet_t.cfg" if thorough else "RoundRobinSet_q.cfg", "round-robin-any-readiness")
+    _model(chk, "RoundRobinSet", "RoundRobinSet_same.cfg", "round-robin-mutant-start-eq-last", expect_violation=True)
+    _model(chk, "RoundRobinSet", "RoundRobinSet_vac.cfg", "round-robin-waits-across-transitions-reachable", expect_violation=True)
+    # ... and, while the vector is unchanged, for ANY number of connections (TLAPS proof + TLC sanity of the same module)
+    vlib.tlaps_proof(chk, "RoundRobin")
+    _model(chk, "proofs/RoundRobin", "proofs/RoundRobin_tlc.cfg", "round-robin-proof-module-n5")
+    _model(chk, "proofs/RoundRobin", "proofs/RoundRobin_vac.cfg", "round-robin-proof-module-armed-reachable", expect_violation=True)
     run_family(chk, "server", "prod", ["--seed", s, "--n", 10000 if thorough else 1500, "--mode", "fair"], [ST], "fair")
     run_family(chk, "server", "prod", ["--seed", s + 1, "--n", 10000 if thorough else 1500, "--mode", "fairtrans"], [ST],
                "fair-transitions")
